@@ -81,14 +81,6 @@ fn drain_env_tokens(tokens: &mut Tokens) -> HashMap<String, String> {
     envs
 }
 
-fn line_to_tokens(sh: &mut Shell, line: &str) -> (Tokens, HashMap<String, String>) {
-    let linfo = parsers::parser_line::parse_line(line);
-    let mut tokens = linfo.tokens;
-    shell::do_expansion(sh, &mut tokens);
-    let envs = drain_env_tokens(&mut tokens);
-    (tokens, envs)
-}
-
 fn set_shell_vars(sh: &mut Shell, envs: &HashMap<String, String>) {
     for (name, value) in envs.iter() {
         sh.set_env(name, value);
@@ -131,14 +123,14 @@ fn run_proc(sh: &mut Shell, line: &str, tty: bool,
 }
 
 fn run_with_shell(sh: &mut Shell, line: &str) -> CommandResult {
-    let (tokens, envs) = line_to_tokens(sh, line);
-    if tokens.is_empty() {
-        set_shell_vars(sh, &envs);
-        return CommandResult::new();
-    }
-
+    // the line is planned -- and its substitutions are run -- once
     match CommandLine::from_line(line, sh) {
         Ok(c) => {
+            if c.is_empty() {
+                set_shell_vars(sh, &c.envs);
+                return CommandResult::new();
+            }
+
             let (term_given, cr) = core::run_pipeline(sh, &c, false, true, false);
             if term_given {
                 unsafe {
